@@ -38,6 +38,7 @@ func vC15Second(kind string, got interface{}, want []byte) {
 
 func vC15Check(kind string, v interface{}) {
 	o := vDocParams()
+	vPayloadFork = kind == "header" || kind == "items" || kind == "parameter" // the kinds whose lookups special-case simple-schema members
 	doc := vJBytes(vBuildDoc(kind, 1, "d", o))
 	if json.Unmarshal(doc, v) != nil {
 		return
